@@ -25,7 +25,7 @@ static FILE* vfopen(const char* n, const char* m);
 LongWord ErrorCount, WarnCount;            /* asmerr.c is not linked: the counters live here */
 #define NP 3
 LongWord in_err[NP], in_warn[NP];
-unsigned char in_repass[NP], in_codeoutput, in_sharemode, in_macpro, in_macro, in_quiet;
+unsigned char in_repass[NP], in_codeoutput, in_sharemode, in_macpro, in_macro, in_quiet, in_gef;
 static int passes_run;
 static unsigned sum_err = 0xEEEEEEEE, sum_warn = 0xEEEEEEEE; static int sum_seen;
 
@@ -82,11 +82,35 @@ static char n_src[STRINGSIZE], n_out[STRINGSIZE], n_err[STRINGSIZE], n_lst[STRIN
 static char n_cur[STRINGSIZE];
 static char in_name[2] = "a";
 
+#ifdef K_GROUP
+/* C02-K4: AssembleGroup() -- one source-file argument: the failure mark survives every later file and argument.
+ * AssembleFile is cut to its contract (verified above): it may set GlobErrFlag, it never clears it. */
+#define NF 3
+unsigned char in_nfiles, in_fail[NF], in_gef0;
+static int files_done;
+static void AssembleFile(char* Name) { (void)Name; if (files_done < NF && (in_fail[files_done] & 1)) GlobErrFlag = True; files_done++; }
+Boolean DirScan(char* Mask, charcallback callback)
+{ int i; (void)Mask; for (i = 0; i < NF; i++) if (i < in_nfiles) callback(in_name); return in_nfiles > 0; }
+void AddSuffix(char* s, char const* Suff) { (void)s; (void)Suff; }
+void harness(void)
+{
+  int i, any = 0;
+  LOAD(in_nfiles); LOADA(in_fail, NF); LOAD(in_gef0);
+  ASSUME(in_nfiles <= NF);
+  GlobErrFlag = in_gef0 & 1;
+  AssembleGroup(in_name);
+  CHECK(files_done == in_nfiles, "every file matched by the argument is assembled once");
+  for (i = 0; i < NF; i++) if (i < in_nfiles && (in_fail[i] & 1)) any = 1;
+  CHECK((GlobErrFlag != 0) == ((in_gef0 & 1) || any), "the invocation is marked failed exactly when an earlier argument or one of this argument's files failed");
+  if ((in_gef0 & 1) && !any) WITNESS("failure of an earlier argument survives a clean one");
+  WITNESS("end");
+}
+#else
 void harness(void)
 {
   int p, last, k;
   LOADA(in_err, NP); LOADA(in_warn, NP); LOADA(in_repass, NP);
-  LOAD(in_codeoutput); LOAD(in_sharemode); LOAD(in_macpro); LOAD(in_macro); LOAD(in_quiet);
+  LOAD(in_codeoutput); LOAD(in_sharemode); LOAD(in_macpro); LOAD(in_macro); LOAD(in_quiet); LOAD(in_gef);
   ASSUME(in_codeoutput <= 1 && in_sharemode <= 3 && in_macpro <= 1 && in_macro <= 1 && in_quiet <= 1);
   /* bound: at most NP passes -- the last modelled pass does not ask for another one */
   ASSUME(in_err[NP - 1] != 0 || !(in_repass[NP - 1] & 1));
@@ -95,7 +119,8 @@ void harness(void)
   ErrorPath = n_errpath;                   /* -E given: the per-file log handling is not the subject */
   CodeOutput = in_codeoutput; ShareMode = in_sharemode; MacProOutput = in_macpro; MacroOutput = in_macro; QuietMode = in_quiet;
   ListMode = 0; ListMask = 0; DebugMode = DebugNone; MakeDebug = False; MakeUseList = MakeCrossList = MakeSectionList = MakeIncludeList = False;
-  GlobErrFlag = False; PrtInitString = empty; PrtExitString = empty; PrtTitleString = empty; CurrFileName = n_cur;
+  GlobErrFlag = in_gef & 1;               /* an earlier file of the same invocation may already have failed */
+  PrtInitString = empty; PrtExitString = empty; PrtTitleString = empty; CurrFileName = n_cur;
 
   AssembleFile(in_name);
 
@@ -103,7 +128,8 @@ void harness(void)
   last = 0;
   for (k = 0; k < NP - 1; k++) if (last == k && in_err[k] == 0 && (in_repass[k] & 1)) last = k + 1;
   CHECK(passes_run == last + 1, "the pass loop repeats exactly while the pass had no errors and requested a repass");
-  CHECK((GlobErrFlag != 0) == (in_err[last] != 0), "the run is marked failed exactly when the final pass reported errors");
+  CHECK((GlobErrFlag != 0) == ((in_gef & 1) || in_err[last] != 0), "the invocation is marked failed exactly when this file's final pass reported errors or an earlier file had failed");
+  if ((in_gef & 1) && in_err[last] == 0) WITNESS("clean file after a failed one");
   if (in_codeoutput)
     CHECK(ex_out == (in_err[last] == 0), "a code file exists exactly when no error was reported");
   if (in_err[last] != 0)
@@ -120,3 +146,4 @@ void harness(void)
   if (last == NP - 1) WITNESS("three passes");
   WITNESS("end");
 }
+#endif
